@@ -146,7 +146,8 @@ def optimize_mps(mps: Mps, mpo: Union[Mpo, StackedMpo], omega: float = None) -> 
         # check if convergence
         if isweep > 0 and percent == 0:
             v1, v2 = sorted(macro_iteration_result)[:2]
-            if np.allclose(
+            # with several roots a sweep at a small bond dimension may yield fewer states than another one
+            if np.shape(v1) == np.shape(v2) and np.allclose(
                 v1, v2, rtol=mps.optimize_config.e_rtol, atol=mps.optimize_config.e_atol
             ):
                 logger.info("DMRG has converged!")
